@@ -1,7 +1,8 @@
 (* C03 C10 C13: no explicit abort.  None of the models has a step that ends the process on purpose: a decoder
    returns an error (C03), a hostile connection ends and the servers go on (C10), a disconnect strands and crashes
    nothing (C13).  The translator lists every call of the builtin panic, os.Exit, runtime.Goexit and
-   log.Fatal* / log.Panic* in the non-test files of protocol/*, service, attachment, terminal and shared/consts of
+   log.Fatal* / log.Panic* in the non-test files of every directory of the repository that holds Go files, the
+   example programs excepted (today protocol/*, service, attachment, terminal, shared/consts), of
    the tree under check; the obligation is that there is none.  (Implicit panics - index, nil, closed channel - are
    what the models and the harness are about; this tie only rules out the explicit ones, whatever input or
    schedule would reach them.) *)
